@@ -17,6 +17,7 @@ import (
 
 	"github.com/KevoDB/kevo/pkg/common/log"
 	"github.com/KevoDB/kevo/pkg/config"
+	"github.com/KevoDB/kevo/pkg/verifhook"
 )
 
 const (
@@ -261,6 +262,7 @@ func (w *WAL) Append(entryType uint8, key, value []byte) (uint64, error) {
 		entrySize += 4 + len(value)
 	}
 
+	verifhook.Point("wal.append.before_write")
 	// Check if we need to split the record
 	if entrySize <= MaxRecordSize {
 		// Single record case
@@ -275,6 +277,7 @@ func (w *WAL) Append(entryType uint8, key, value []byte) (uint64, error) {
 		}
 	}
 
+	verifhook.Point("wal.append.after_write")
 	// Create an entry object for notification
 	entry := &Entry{
 		SequenceNumber: seqNum,
@@ -286,6 +289,7 @@ func (w *WAL) Append(entryType uint8, key, value []byte) (uint64, error) {
 	// Notify observers of the new entry
 	w.notifyEntryObservers(entry)
 
+	verifhook.Point("wal.append.before_sync")
 	// Sync the file if needed
 	if err := w.maybeSync(); err != nil {
 		return 0, err
@@ -539,6 +543,7 @@ func (w *WAL) writeFragmentedRecord(entryType uint8, seqNum uint64, key, value [
 		return err
 	}
 
+	verifhook.Point("wal.frag.after_first")
 	// Prepare the remaining data
 	var remaining []byte
 
@@ -617,10 +622,12 @@ func (w *WAL) syncLocked() error {
 		return fmt.Errorf("failed to flush WAL buffer: %w", err)
 	}
 
+	verifhook.Point("wal.sync.after_flush")
 	if err := w.file.Sync(); err != nil {
 		return fmt.Errorf("failed to sync WAL file: %w", err)
 	}
 
+	verifhook.Point("wal.sync.after_fsync")
 	w.lastSync = time.Now()
 	w.batchByteSize = 0
 
@@ -701,6 +708,7 @@ func (w *WAL) AppendBatch(entries []*Entry) (uint64, error) {
 		}
 	}
 
+	verifhook.Point("wal.batch.before_write")
 	// Now write all entries atomically (no intermediate flushes)
 	// All entries in the batch share the same sequence number
 	for i, entry := range entries {
@@ -708,14 +716,17 @@ func (w *WAL) AppendBatch(entries []*Entry) (uint64, error) {
 		if err := w.writeRecord(RecordTypeFull, entry.Type, startSeqNum, entry.Key, entry.Value); err != nil {
 			return 0, fmt.Errorf("failed to write entry %d: %w", i, err)
 		}
+		verifhook.Point("wal.batch.between_records")
 	}
 
+	verifhook.Point("wal.batch.after_write")
 	// Update next sequence number by 1 (not by batch size)
 	w.nextSequence = startSeqNum + 1
 
 	// Notify observers about the batch
 	w.notifyBatchObservers(startSeqNum, entries)
 
+	verifhook.Point("wal.batch.before_sync")
 	// Sync if needed - this ensures the entire batch hits disk atomically
 	if err := w.maybeSync(); err != nil {
 		return 0, err
@@ -831,10 +842,12 @@ func (w *WAL) Close() error {
 		return fmt.Errorf("failed to flush WAL buffer during close: %w", err)
 	}
 
+	verifhook.Point("wal.close.after_flush")
 	if err := w.file.Sync(); err != nil {
 		return fmt.Errorf("failed to sync WAL file during close: %w", err)
 	}
 
+	verifhook.Point("wal.close.after_fsync")
 	// Now mark as rotating to block new operations
 	atomic.StoreInt32(&w.status, WALStatusRotating)
 
